@@ -47,12 +47,15 @@ ASSUMPTIONS = [
     "survivor order is judged only for remove_out_of_bounds_particles; the other filters are judged as multisets of rows",
 ]
 
-CLASSES = ["oob_center_faces", "oob_whole_odd", "oob_whole_even", "oob_upper_only", "oob_multi_tomo", "oob_far", "oob_single", "oob_shared_dims",
-           "trim_faces", "trim_random", "trim_start_one", "dist_near", "dist_cross_tomo", "dist_shifted", "dist_exact_tie",
-           "mask_inside", "mask_outside", "mask_files_multi", "mask_single_partial"]
+CLASSES = ["oob_center_faces", "oob_whole_odd", "oob_whole_even", "oob_upper_only", "oob_multi_tomo", "oob_far", "oob_single", "oob_shared_dims", "oob_block_sizes",
+           "trim_faces", "trim_random", "trim_start_one", "trim_block_sizes", "dist_near", "dist_cross_tomo", "dist_shifted", "dist_exact_tie", "dist_block_sizes",
+           "mask_inside", "mask_outside", "mask_files_multi", "mask_single_partial", "mask_block_sizes"]
 KEY = "oob-lower-face"
 TIE = 1e-6
-FACE = [-1.0, -0.125, 0.0, 0.125, 1.0]
+T30, T22 = 2.0 ** -30, 2.0 ** -22        # 9.3e-10 and 2.4e-7: dyadic, so every x/shift/offset sum stays exact
+FACE = [-1.0, -0.125, -T22, -T30, 0.0, T30, T22, 0.125, 1.0]
+BLOCK_SIZES = [2 ** k + d for k in range(6, 13) for d in (-1, 0, 1)]
+ID_BASES = {"1e5": 100000, "1e6": 1000000, "date": 2309150, "2p24": 2 ** 24 - 4, "2p31": 2 ** 31 - 2}
 
 
 def plan(tier):
@@ -112,6 +115,29 @@ def judge_set(ctx, name, exp, keep, out_df, explain=None, ordered=False, what=""
             w["first_altered_survivor"] = _altered(exp, obs, idx)
         if ordered and not O.in_order(idx):
             w["order"] = "survivors are not in input order"
+    return ctx.check(name, ok, w)
+
+
+def judge_file(ctx, name, exp_rows, path, what):
+    """The list written to output_file (EM particle list, parsed from bytes) must be the cleaned list: same rows as the
+    expected survivors after the file format's float32 rounding, as a multiset."""
+    em = files.parse_em(str(path)) if os.path.isfile(str(path)) else {"error": "file not written"}
+    if "error" in em or em.get("code") != 5 or em["dims"][0] != 20 or em["dims"][2] != 1:
+        return ctx.check(name, False, {"call": what, "file": str(path), "problem": em.get("error", "not a 20 x N x 1 float32 EM volume"),
+                                       "dims": em.get("dims")})
+    got = em["data"][:, :, 0].T.astype(np.float64)
+    exp = np.where(np.isnan(exp_rows), 0.0, exp_rows).astype(np.float32).astype(np.float64)
+    idx = O.match_rows(exp, got)
+    kept = O.kept_mask(len(exp), idx)
+    ok = len(got) == len(exp) and bool(kept.all()) and not (idx < 0).any()
+    w = None
+    if not ok:
+        w = {"call": what, "file": os.path.basename(str(path)), "rows_in_file": int(len(got)), "expected_rows": int(len(exp)),
+             "expected_rows_missing_in_file": int((~kept).sum()), "file_rows_not_expected": int((idx < 0).sum())}
+        if (idx < 0).any():
+            j = int(np.nonzero(idx < 0)[0][0])
+            w["first_unexpected_file_row"] = {"subtomo_id": float(got[j, O.ISUB]), "tomo_id": float(got[j, O.ITOMO]),
+                                              "xyz": got[j, O.IX:O.IX + 3].tolist(), "shift": got[j, O.ISH:O.ISH + 3].tolist()}
     return ctx.check(name, ok, w)
 
 
@@ -266,6 +292,24 @@ def _dist_post(ctx, A, S, result):
                    "first": dict(_row(S["arr"], tie_only[0]), **explain(tie_only[0]))})
         ctx.extra["dist_particles_with_nearest_point_exactly_at_radius"] = ctx.extra.get("dist_particles_with_nearest_point_exactly_at_radius", 0) + len(tie_only)
     ctx.extra["dist_exact_tie_pairs_judged"] = ctx.extra.get("dist_exact_tie_pairs_judged", 0) + int(S["ties"])
+    what = "clean_by_distance_to_points(radius=%r, inplace=%r, output_file=%r)" % (S["r"], A["inplace"], os.path.basename(str(A["output_file"])))
+    if isinstance(A["output_file"], str) and A["output_file"].endswith(".em"):
+        judge_file(ctx, "dist_file", S["arr"][~S["removed"]], A["output_file"], what)
+    # particles whose ONLY close reference points are among the last 8 rows of their tomogram's (large) point set
+    last_only = []
+    for f in set(S["feat"].tolist()):
+        q = S["q"][S["qf"] == f]
+        if len(q) <= 64:
+            continue
+        for i in np.nonzero((S["feat"] == f) & S["removed"])[0]:
+            close = np.nonzero(np.sqrt(((q - pos[i]) ** 2).sum(axis=1)) <= S["r"])[0]
+            if len(close) and close.min() >= len(q) - 8:
+                last_only.append(int(i))
+    if last_only and len(set(S["arr"][:, O.ISUB].tolist())) == len(S["arr"]):
+        obs = O.table(out)
+        gone = obs is not None and not set(S["arr"][last_only, O.ISUB].tolist()) & set(obs[:, O.ISUB].tolist())
+        ctx.check("dist_last_rows_decide", gone, {"call": what, "particles_close_only_to_the_last_rows_of_their_point_set": len(last_only),
+                                                   "first": dict(_row(S["arr"], last_only[0]), **explain(last_only[0]))})
 
 
 # ---- call monitor: clean_by_tomo_mask --------------------------------------------------------------
@@ -308,6 +352,9 @@ def _mask_post(ctx, A, S, result):
                 v = np.trunc(pos[i]).astype(int)
                 w["mask_value"] = float(m[v[0], v[1], v[2]])
         return w
+    if isinstance(A["output_file"], str) and A["output_file"].endswith(".em"):
+        judge_file(ctx, "mask_file", S["arr"][~S["removed"]], A["output_file"],
+                   "clean_by_tomo_mask(inplace=%r, output_file=%r)" % (A["inplace"], os.path.basename(A["output_file"])))
     judge_set(ctx, "mask_exact", S["arr"], ~S["removed"], out, explain,
               what="clean_by_tomo_mask(tomo_list=%s, %s, inplace=%r)" % (S["tomos"].tolist(), "list of masks" if isinstance(A["tomo_masks"], list) else "single mask", A["inplace"]))
 
@@ -320,7 +367,7 @@ def setup(ctx):
     f_trim = monitors.wrap(ctx, M, "adapt_to_trimming", "trim_exact", _trim_post, _trim_app, _oob_snap)
     f_dist = monitors.wrap(ctx, M, "clean_by_distance_to_points", "dist_exact", _dist_post, _dist_app, _oob_snap)
     f_mask = monitors.wrap(ctx, M, "clean_by_tomo_mask", "mask_exact", _mask_post, _mask_app, _oob_snap)
-    ctx.declare("trim_start_111", "dims_unchanged", "oob_lower", "oob_repr_invariance", "trim_compose", "dist_union_monotone", "mask_complement", "dist_exact_ties_removed")
+    ctx.declare("dist_file", "mask_file", "dist_last_rows_decide", "trim_start_111", "dims_unchanged", "oob_lower", "oob_repr_invariance", "trim_compose", "dist_union_monotone", "mask_complement", "dist_exact_ties_removed")
     monitors.trace(ctx, [
         ("Motl.remove_out_of_bounds_particles", f_oob, {"whole": "boundary = ceil(box_size / 2)", "center": "boundary = 0",
                                                         "particle_kept": "idx_list.append(i)"}),
@@ -351,6 +398,13 @@ def nz_shift(rng, n, amp=3.0, zero_frac=0.0):
     return s
 
 
+def block_size(ctx, rng, kmax_quick, kmax_thorough):
+    """a particle / point count of the form 2**k - 1, 2**k, 2**k + 1"""
+    kmax = kmax_thorough if ctx.tier == "thorough" else kmax_quick
+    k = int(rng.integers(6, kmax + 1))
+    return 2 ** k + int(rng.integers(-1, 2))
+
+
 def n_particles(ctx, rng, lo=1, hi=36):
     if ctx.tier == "thorough" and rng.random() < 0.35:
         return int(rng.integers(40, 220))
@@ -358,15 +412,50 @@ def n_particles(ctx, rng, lo=1, hi=36):
 
 
 def base_table(rng, n, k, tl=None):
+    """20-field table with k tomograms.  Tomogram ids: small numbers, or ADJACENT integers just above 1e5 (np.isclose merges
+    them), at 1e6 / date-coded 7-digit ids (identical in 6 significant digits), just below 2**24 and around 2**31;
+    subtomo ids optionally lifted to just above 1e5 / just below 2**24 / above 2**31 (adjacent integers as well)."""
     df = gens.motl_table(rng, n, tomos=1, pos_scale=100.0)
+    kind = str(rng.choice(["small", "1e5", "1e6", "date", "2p24", "2p31"], p=[0.4, 0.12, 0.12, 0.12, 0.12, 0.12]))
+    lift = float(rng.choice([0, 0, 0, 100000, 2 ** 24 - n - 50, 2 ** 31]))
+    df["subtomo_id"] = df["subtomo_id"] + lift
     if tl is None:
-        tl = np.sort(rng.choice(np.arange(1, 90), size=k, replace=False)).astype(float)
+        if kind == "small":
+            tl = np.sort(rng.choice(np.arange(1, 90), size=k, replace=False)).astype(float)
+        else:
+            tl = (ID_BASES[kind] + np.arange(5, dtype=float))[:max(k, 1)]
         rng.shuffle(tl)
     tl = np.asarray(tl, dtype=float)
+    df.attrs["ids"] = kind
+    df.attrs["subtomo_lift"] = lift
     a = np.concatenate([np.arange(min(k, n)), rng.integers(0, k, max(0, n - k))])
     rng.shuffle(a)
     df["tomo_id"] = tl[a]
     return df, tl
+
+
+def plant_duplicates(rng, df, keep_ids_unique=False, frac=0.35):
+    """exact duplicate rows (all 20 fields) or, with keep_ids_unique, two particles at exactly the same position and
+    orientation with different subtomo_id and score.  Returns the number of planted rows."""
+    n = len(df)
+    if n < 2 or rng.random() > frac:
+        return 0
+    m = int(rng.integers(1, max(2, n // 6 + 1)))
+    src = rng.integers(0, n, m)
+    tgt = rng.integers(0, n, m)
+    same_pos_only = keep_ids_unique or rng.random() < 0.4
+    vals = df.to_numpy(dtype=float)
+    planted = 0
+    for a, b in zip(src, tgt):
+        if a == b:
+            continue
+        keep = vals[b, [0, O.ISUB]].copy()
+        vals[b] = vals[a]
+        if same_pos_only:
+            vals[b, 0], vals[b, O.ISUB] = keep[0], keep[1]
+        planted += 1
+    df.iloc[:, :] = vals
+    return planted
 
 
 def set_positions(df, c, s):
@@ -406,6 +495,9 @@ def gen_oob(ctx, rng, cls, i):
     n = n_particles(ctx, rng)
     if cls == "oob_single":
         n = 1 if rng.random() < 0.5 else int(rng.integers(2, 10))
+    if cls == "oob_block_sizes":          # the function loops over rows: ~0.7 ms per particle
+        n = block_size(ctx, rng, 8 if rng.random() < 0.85 else 10, 10 if rng.random() < 0.8 else 12)
+        k = int(rng.integers(2, 5))
     pool = None
     if cls == "oob_shared_dims":          # dimensions come from one of the shard's long-lived tables
         pool = int(rng.integers(0, POOL))
@@ -430,9 +522,10 @@ def gen_oob(ctx, rng, cls, i):
             dims[t, 2] += 5
     tomo = df["tomo_id"].to_numpy()
     c = np.zeros((n, 3))
+    zs = np.zeros((n, 3), dtype=bool)     # axes whose shift is forced to 0 (value planted one ulp off a face: x + 0 is exact)
     for r in range(n):
         D = dims[int(np.nonzero(tl == tomo[r])[0][0])]
-        p_h = (0.7, 0.2, 0.07, 0.03) if cls == "oob_multi_tomo" else (0.2, 0.5, 0.2, 0.1)
+        p_h = (0.7, 0.2, 0.07, 0.03) if cls in ("oob_multi_tomo", "oob_block_sizes") else (0.2, 0.5, 0.2, 0.1)
         hs = hostile_axes(rng, p_h)
         for a in range(3):
             if not hs[a]:
@@ -444,10 +537,15 @@ def gen_oob(ctx, rng, cls, i):
                 kind = rng.choice(["far_beyond", "far_negative", "upper", "lower"], p=[0.3, 0.3, 0.2, 0.2])
             else:
                 kind = rng.choice(["lower", "upper", "beyond", "negative"], p=[0.4, 0.4, 0.1, 0.1])
-            if kind == "lower":
+            if mode == "center" and kind in ("lower", "upper") and rng.random() < 0.15:
+                # one ulp inside / outside a face; only for b = 0 and zero shift, where no arithmetic is involved
+                face = 0.0 if kind == "lower" else D[a]
+                c[r, a] = np.nextafter(face, face + (1.0 if rng.random() < 0.5 else -1.0))
+                zs[r, a] = True
+            elif kind == "lower":
                 c[r, a] = b + rng.choice(FACE)
             elif kind == "lower_in":
-                c[r, a] = b + rng.choice([0.0, 0.125, 1.0])
+                c[r, a] = b + rng.choice([0.0, T30, 0.125, 1.0])
             elif kind == "upper":
                 c[r, a] = D[a] - b + rng.choice(FACE)
             elif kind == "beyond":
@@ -458,8 +556,11 @@ def gen_oob(ctx, rng, cls, i):
                 c[r, a] = D[a] + dy(rng, 500, 5000)
             else:
                 c[r, a] = -dy(rng, 500, 5000)
-    set_positions(df, c, nz_shift(rng, n, zero_frac=0.1))
-    reprs = ["array_f", "array_i", "df_named", "df_unnamed", "file_int", "file_float"]
+    sh = nz_shift(rng, n, zero_frac=0.1)
+    sh[zs] = 0.0
+    set_positions(df, c, sh)
+    n_dup = plant_duplicates(rng, df)
+    reprs = ["array_f", "array_i", "df_named", "df_unnamed", "file_int", "file_float", "file_odd"]
     extra_rows = int(rng.integers(0, 3))
     if k == 1 and rng.random() < 0.5:
         reprs = ["list4", "array1d"]
@@ -477,12 +578,15 @@ def gen_oob(ctx, rng, cls, i):
     arr = O.table(df)
     lo, up, _, _ = O.oob_expected(arr, tl, dims, b)
     case = dict(kind="oob", df=df, mode=mode, box=box, b=b, ids=all_ids, dims=all_dims, perm=(p1, p2), reprs=(r1, r2),
-                kw=bool(rng.integers(0, 2)), exp_kept=int((lo & up).sum()), n=n, pool=pool, seq=seq)
+                kw=bool(rng.integers(0, 2)), exp_kept=int((lo & up).sum()), n=n, pool=pool, seq=seq, ulp=bool(zs.any()),
+                big=bool(n > 300))
     case["summary"] = {"filter": "remove_out_of_bounds_particles", "n": n, "tomograms": k, "boundary_type": mode, "box_size": box,
                        "dims": {str(t): d.tolist() for t, d in zip(tl, dims)}, "dims_repr": [r1, r2], "extra_dim_rows": extra_rows,
                        "expected_kept": case["exp_kept"], "lower_face_only_failures": int((~lo & up).sum()),
                        "upper_failures": int((~up).sum()), "positions_head": head(arr),
-                       "shared_table": pool, "reuse_sequence": [list(v) for v in seq]}
+                       "shared_table": pool, "reuse_sequence": [list(v) for v in seq],
+                       "tomo_id_kind": df.attrs["ids"], "subtomo_id_lift": df.attrs["subtomo_lift"], "duplicate_rows_planted": n_dup,
+                       "one_ulp_off_a_face": int(zs.sum())}
     return case
 
 
@@ -504,9 +608,16 @@ def dims_object(ctx, case, which, tag):
     if r == "array1d":
         return a[0].copy()
     path = os.path.join(ctx.scratch, "dims_%s_%d.txt" % (tag, which))
+    odd = ["%d", "%d.", "+%d", "%.1f", "%.2e", "%.3E", "%08.3f"]       # 85  85.  +85  85.0  8.50e+01  8.500E+01  0085.000
     with open(path, "w") as f:
-        for row in a:
-            f.write(("  ".join("%d" % v for v in row) if r == "file_int" else " ".join("%.1f" % v for v in row)) + "\n")
+        for j, row in enumerate(a):
+            if r == "file_int":
+                f.write("  ".join("%d" % v for v in row) + "\n")
+            elif r == "file_float":
+                f.write(" ".join("%.1f" % v for v in row) + "\n")
+            else:                        # unusual but valid number spellings, tabs and trailing blanks
+                toks = [["%d", "%.1f", "%.10e", "+%d"][(j + which) % 4] % row[0]] + [odd[(j + c + which) % len(odd)] % v for c, v in enumerate(row[1:])]
+                f.write(" \t".join(toks) + " \n")
     return path
 
 
@@ -569,15 +680,41 @@ def run_oob_reuse(ctx, case):
             _PRISTINE.pop(id(D), None)
 
 
+def run_oob_history(ctx, case):
+    """call with an ndarray A; modify A in place; call again with A; restore A in place; call again.  Every call is judged
+    against the values A holds at that moment (the call monitor parses the argument when the call is made)."""
+    cm = ctx.cm
+    A = np.column_stack([case["ids"], case["dims"]]).astype(np.float64)
+    orig = A.copy()
+    for step in range(3):
+        if step == 1:
+            A[:, 1:] -= np.array([3.0, 0.0, 7.0])
+            A[:, 1:] = np.maximum(A[:, 1:], 1.0)
+        elif step == 2:
+            A[:] = orig
+        ok, m = ctx.call("Motl(df)", cm.Motl, case["df"].copy())
+        if not ok:
+            return
+        ok, _ = ctx.call("remove_out_of_bounds_particles", m.remove_out_of_bounds_particles, A, case["mode"], case["box"])
+        if not ok:
+            return
+
+
 def run_oob(ctx, case):
-    if case["pool"] is not None or (case["i"] // len(CLASSES)) % 2 == 0:
-        run_oob_reuse(ctx, case)
+    phase = (case["i"] // len(CLASSES)) % 3
+    if not case["big"]:
+        if case["pool"] is not None or phase == 0:
+            run_oob_reuse(ctx, case)
+        elif phase == 1:
+            run_oob_history(ctx, case)
     cm = ctx.cm
     rng = ctx.rng(case["i"], 1)
     got = []
     for which in (0, 1):
+        if which == 1 and case["big"]:
+            return
         df = case["df"].copy()
-        if which == 1:                       # same complete positions, different x/shift split
+        if which == 1 and not case["ulp"]:   # same complete positions, different x/shift split
             arr = O.table(df)
             set_positions(df, O.positions(arr), nz_shift(rng, len(df), amp=6.0))
         ok, m = ctx.call("Motl(df)", cm.Motl, df)
@@ -603,6 +740,8 @@ def run_oob(ctx, case):
 def gen_trim(ctx, rng, cls, i):
     k = int(rng.integers(1, 4))
     n = n_particles(ctx, rng)
+    if cls == "trim_block_sizes":
+        n = 2 ** 16 + 1 if rng.random() < 0.08 else block_size(ctx, rng, 12, 12)
     df, tl = base_table(rng, n, k)
     D = rng.integers(30, 130, 3).astype(float)
     start = np.array([rng.integers(1, int(D[a] // 2)) for a in range(3)], dtype=float)
@@ -622,19 +761,24 @@ def gen_trim(ctx, rng, cls, i):
         start += rng.choice([0.0, 0.5, 0.25], 3)
         end = np.maximum(end + rng.choice([0.0, 0.5, 0.75], 3), start)
     x = np.zeros((n, 3))
+    n_ulp = 0
     for r in range(n):
-        hs = hostile_axes(rng, (0.2, 0.5, 0.2, 0.1)) if cls in ("trim_faces", "trim_start_one") else np.zeros(3, dtype=bool)
+        hs = hostile_axes(rng, (0.2, 0.5, 0.2, 0.1)) if cls in ("trim_faces", "trim_start_one", "trim_block_sizes") else np.zeros(3, dtype=bool)
         for a in range(3):
-            if cls == "trim_random" and not hs[a]:
+            if cls == "trim_start_one" and hs[a] and rng.random() < 0.15:
+                face = start[a] if rng.random() < 0.5 else end[a]      # one ulp off a face (offset 0: x' == x exactly)
+                x[r, a] = np.nextafter(face, face + (1.0 if rng.random() < 0.5 else -1.0))
+                n_ulp += 1
+            elif cls == "trim_random" and not hs[a]:
                 x[r, a] = dy(rng, -10, D[a] + 10) if rng.random() < 0.35 else dy(rng, start[a], end[a])
             elif not hs[a]:
                 x[r, a] = dy(rng, start[a], end[a])
             else:
                 kind = rng.choice(["lo", "hi", "out", "below"], p=[0.4, 0.4, 0.1, 0.1])
                 if kind == "lo":
-                    x[r, a] = start[a] + rng.choice([-1.0, -0.125, 0.0, 0.125])
+                    x[r, a] = start[a] + rng.choice([-1.0, -0.125, -T22, -T30, 0.0, T30, 0.125])
                 elif kind == "hi":
-                    x[r, a] = end[a] + rng.choice([-0.125, 0.0, 0.125, 1.0])
+                    x[r, a] = end[a] + rng.choice([-0.125, -T30, 0.0, T30, T22, 0.125, 1.0])
                 elif kind == "out":
                     x[r, a] = end[a] + dy(rng, 1, 40)
                 else:
@@ -643,6 +787,7 @@ def gen_trim(ctx, rng, cls, i):
     for a, (cx, cs) in enumerate(zip(("x", "y", "z"), ("shift_x", "shift_y", "shift_z"))):
         df[cx] = x[:, a]
         df[cs] = s[:, a]
+    n_dup = plant_duplicates(rng, df)
     # a second box inside the trimmed volume for the composition oracle
     td = end - start + 1
     s2 = np.array([rng.integers(1, max(2, int(td[a] // 2) + 1)) for a in range(3)], dtype=float)
@@ -658,7 +803,8 @@ def gen_trim(ctx, rng, cls, i):
     case = dict(kind="trim", df=df, start=start, end=end, s2=s2, e2=e2, argt=argt, exp_kept=int(keep.sum()), n=n)
     case["summary"] = {"filter": "adapt_to_trimming", "n": n, "tomograms": k, "start": start.tolist(), "end": end.tolist(),
                        "second_box": [s2.tolist(), e2.tolist()], "arg_type": argt, "expected_kept": case["exp_kept"],
-                       "xyz_head": np.round(x[:3], 3).tolist()}
+                       "xyz_head": np.round(x[:3], 3).tolist(), "tomo_id_kind": df.attrs["ids"], "subtomo_id_lift": df.attrs["subtomo_lift"],
+                       "duplicate_rows_planted": n_dup, "one_ulp_off_a_face": n_ulp}
     return case
 
 
@@ -673,8 +819,30 @@ def _vecarg(v, argt):
     return v.astype(np.float64)
 
 
+def run_trim_history(ctx, case):
+    """call with arrays S, E; modify both in place; call again with the same objects (each call judged at call time)."""
+    cm = ctx.cm
+    S, E = case["start"].astype(np.float64), case["end"].astype(np.float64)
+    for step in range(3):
+        if step == 1:
+            S += 1.0
+            E -= np.array([0.0, 2.0, 1.0])
+            np.maximum(E, S, out=E)
+        elif step == 2:
+            S[:] = case["start"]
+            E[:] = case["end"]
+        ok, m = ctx.call("Motl(df)", cm.Motl, case["df"].copy())
+        if not ok:
+            return
+        ok, _ = ctx.call("adapt_to_trimming", m.adapt_to_trimming, S, E)
+        if not ok:
+            return
+
+
 def run_trim(ctx, case):
     cm = ctx.cm
+    if (case["i"] // len(CLASSES)) % 3 == 1 and case["n"] < 5000:
+        run_trim_history(ctx, case)
     ok, m = ctx.call("Motl(df)", cm.Motl, case["df"].copy())
     if not ok:
         return
@@ -696,7 +864,7 @@ def run_trim(ctx, case):
         return
     a = m.df[["subtomo_id", "x", "y", "z"]].to_numpy(dtype=float)
     b = m2.df[["subtomo_id", "x", "y", "z"]].to_numpy(dtype=float)
-    a, b = a[np.argsort(a[:, 0])], b[np.argsort(b[:, 0])]
+    a, b = a[np.lexsort(a.T[::-1])], b[np.lexsort(b.T[::-1])]
     ctx.check("trim_compose", a.shape == b.shape and np.array_equal(a, b),
               {"first": [s1.tolist(), e1.tolist()], "second": [s2.tolist(), e2.tolist()], "composed": [sc.tolist(), ec.tolist()],
                "kept_two_steps": int(len(a)), "kept_one_step": int(len(b)), "two_steps_head": a[:3].tolist(), "one_step_head": b[:3].tolist()})
@@ -706,13 +874,17 @@ def run_trim(ctx, case):
 def gen_dist(ctx, rng, cls, i):
     k = int(rng.integers(1, 5)) if cls != "dist_cross_tomo" else int(rng.integers(2, 5))
     n = n_particles(ctx, rng)
+    if cls == "dist_block_sizes":
+        k = int(rng.integers(1, 3))
+        n = block_size(ctx, rng, 8, 11)
     df, tl = base_table(rng, n, k)
     c = dy(rng, 0, 70, (n, 3))
     amp = 12.0 if cls == "dist_shifted" else 3.0
     s = nz_shift(rng, n, amp=amp)
     set_positions(df, c, s)
-    x = c - s
-    tomo = df["tomo_id"].to_numpy()
+    n_dup = plant_duplicates(rng, df)
+    arr0 = O.table(df)
+    c, x, tomo = O.positions(arr0), arr0[:, O.IX:O.IX + 3].copy(), arr0[:, O.ITOMO].copy()
     r = float(dy(rng, 1.5, 9.0))                                   # multiple of 1/8 like every coordinate
     tie_bases = []
     if cls == "dist_exact_tie":
@@ -731,6 +903,29 @@ def gen_dist(ctx, rng, cls, i):
                 t = float(rng.choice([q for q in tl if q != t]))
             pts.append([t, c[j, 0] + off[0], c[j, 1] + off[1], c[j, 2] + off[2]])
     n_pts = int(rng.integers(0, 2 + n // 2)) if rng.random() < 0.9 else 0
+    blocks = None
+    if cls == "dist_block_sizes":
+        # more than 1024 reference points in a tomogram, counts around / off the powers of two; the only close points of
+        # some particles are the LAST rows of their tomogram's point set, of others the first rows
+        n_pts = 0
+        blocks = {}
+        sizes = [1025, 1027, 1500, 2049, 2500] + ([3000, 4097, 5000] if ctx.tier == "thorough" else [])
+        for t in tl:
+            npt = int(rng.choice(sizes)) if rng.random() < 0.75 else int(rng.choice([1023, 1024, 2048, 129, 64]))
+            B = np.column_stack([np.full(npt, t), dy(rng, 300, 900, (npt, 3))])          # filler far from every particle
+            mine = np.nonzero(tomo == t)[0]
+            chosen = rng.permutation(mine)[:min(len(mine), 24)]
+            tail = max(1, min(npt % 1024 if npt > 1024 else 6, 6))
+            for q, j in enumerate(chosen):
+                v = rng.normal(size=3)
+                v /= np.linalg.norm(v)
+                pt = np.round((c[j] + v * r * float(rng.choice([0.0, 0.3, 0.8]))) * 8) / 8
+                row = npt - 1 - int(rng.integers(0, tail)) if q % 2 == 0 else int(rng.integers(0, min(npt, 50)))
+                B[row, 1:] = pt
+            blocks[float(t)] = B
+        order = rng.permutation(np.concatenate([np.full(len(B), j) for j, B in enumerate(blocks.values())]))
+        its = [iter(B) for B in blocks.values()]
+        pts = [next(its[j]).tolist() for j in order]               # tomograms interleaved, each one's row order preserved
     empty_tomo = tl[int(rng.integers(0, k))] if (cls == "dist_cross_tomo" and rng.random() < 0.6) else None
     for _ in range(n_pts):
         u = rng.random()
@@ -758,12 +953,14 @@ def gen_dist(ctx, rng, cls, i):
     margin = min(margin, O.dist_expected(arr, tomo, P[:, 1:], P[:, 0], r_small)[1])
     split = rng.random(len(P)) < 0.5
     case = dict(kind="dist", df=df, P=P, r=r, r_small=r_small, split=split, inplace=bool(rng.integers(0, 2)),
-                out_file=bool(rng.random() < 0.12), kw=bool(rng.integers(0, 2)), colperm=rng.permutation(5),
-                int_ids=bool(rng.integers(0, 2)), exp_kept=int((~removed).sum()), n=n, near_tie=bool(margin < TIE))
+                out_file=bool(rng.random() < 0.4), kw=bool(rng.integers(0, 2)), colperm=rng.permutation(5),
+                int_ids=bool(rng.integers(0, 2)), exp_kept=int((~removed).sum()), n=n, near_tie=bool(margin < TIE),
+                big=blocks is not None)
     case["summary"] = {"filter": "clean_by_distance_to_points", "n": n, "tomograms": k, "points": int(len(P)), "radius": r,
                        "radius_small": r_small, "points_per_tomo": {str(t): int((P[:, 0] == t).sum()) for t in tl},
                        "points_in_foreign_tomograms": int((~np.isin(P[:, 0], tl)).sum()), "inplace": case["inplace"],
-                       "expected_removed": int(removed.sum()), "exact_tie_pairs": int(ties), "positions_head": head(arr), "points_head": P[:3].tolist()}
+                       "expected_removed": int(removed.sum()), "exact_tie_pairs": int(ties), "positions_head": head(arr), "points_head": P[:3].tolist(),
+                       "tomo_id_kind": df.attrs["ids"], "subtomo_id_lift": df.attrs["subtomo_lift"], "duplicate_rows_planted": n_dup, "output_file": case["out_file"]}
     return case
 
 
@@ -803,9 +1000,23 @@ def run_dist(ctx, case):
         return
     of = os.path.join(ctx.scratch, "dist_%d.em" % case["i"]) if case["out_file"] else None
     R = removed_by(P, case["r"], case["inplace"], of, case["kw"])
-    if R is None or case["i"] % 3 == 2 or len(P) == 0:
+    if R is None or case["big"] or len(P) == 0:
         return
-    R1 = removed_by(P[case["split"]], case["r"], not case["inplace"])
+    if (case["i"] // len(CLASSES)) % 3 == 1:
+        # history: one caller-owned points table; call, move the points in place, call again, move back, call again
+        pf = points_frame(case, P, rng)
+        for step, dx in enumerate((0.0, 2.0, -2.0)):
+            pf.loc[:, "x"] = pf["x"] + dx
+            ok, m = ctx.call("Motl(df)", cm.Motl, case["df"].copy())
+            if not ok:
+                return
+            ok, _ = ctx.call("clean_by_distance_to_points", m.clean_by_distance_to_points, pf, case["r"],
+                             inplace=bool(step % 2), output_file=(of[:-3] + "_h%d.em" % step) if of else None)
+            if not ok:
+                return
+    if case["i"] % 3 == 2:
+        return
+    R1 = removed_by(P[case["split"]], case["r"], not case["inplace"], (of[:-3] + "_p1.em") if of else None)
     R2 = removed_by(P[~case["split"]], case["r"], case["inplace"])
     Rs = removed_by(P, case["r_small"], False)
     if R1 is None or R2 is None or Rs is None:
@@ -822,6 +1033,9 @@ def gen_mask(ctx, rng, cls, i):
     if cls in ("mask_files_multi", "mask_single_partial"):
         k = int(rng.integers(2, 5))
     n = n_particles(ctx, rng)
+    if cls == "mask_block_sizes":
+        n = block_size(ctx, rng, 11, 12)
+        k = int(rng.integers(1, 4))
     df, tl = base_table(rng, n, k)
     n_listed = k if cls in ("mask_inside", "mask_files_multi") or rng.random() < 0.5 else int(rng.integers(1, k + 1))
     if cls == "mask_single_partial" and k > 1:
@@ -831,6 +1045,8 @@ def gen_mask(ctx, rng, cls, i):
         listed.insert(int(rng.integers(0, len(listed) + 1)), float(rng.integers(300, 320)))      # a tomogram without particles
     single = cls == "mask_single_partial" or (cls in ("mask_inside", "mask_outside") and rng.random() < 0.4)
     tl_kind = str(rng.choice(["array_f", "array_i", "list", "file"]))
+    if tl_kind == "file" and max(listed) > 2 ** 24:
+        tl_kind = "array_f"               # list FILES are read as float32 by ioutils.tlt_load: such ids only as arrays/lists
     if tl_kind == "file":
         listed = sorted(listed)
     n_masks = 1 if single else len(listed)
@@ -855,6 +1071,7 @@ def gen_mask(ctx, rng, cls, i):
         storage = [str(rng.choice(["f8", "f4", "i1", "u1", "i8", "mrc_f4", "em_f4"], p=[0.25, 0.15, 0.15, 0.1, 0.1, 0.15, 0.1])) for _ in masks]
     tomo = df["tomo_id"].to_numpy()
     c = np.zeros((n, 3))
+    zs = np.zeros((n, 3), dtype=bool)     # zero shift where the position is planted one ulp below a voxel boundary
     for r in range(n):
         t = tomo[r]
         sh = shapes[0] if (single or t not in listed) else shapes[listed.index(t)]
@@ -867,23 +1084,39 @@ def gen_mask(ctx, rng, cls, i):
             if a in oa:
                 kind = out_kind if out_kind != "both" else ("above" if rng.random() < 0.5 else "below")
                 if kind == "above":
-                    c[r, a] = S + rng.choice([0.0, 0.125, 0.875, 1.0, float(dy(rng, 1, 30))])
+                    c[r, a] = S + rng.choice([0.0, T30, 0.125, 0.875, 1.0, float(dy(rng, 1, 30))])
                 else:
-                    c[r, a] = -rng.choice([1.0, 1.125, 1.5, 2.0, float(dy(rng, 1, 30))])
+                    c[r, a] = -rng.choice([1.0, 1.0 + T30, 1.125, 1.5, 2.0, float(dy(rng, 1, 30))])
             else:
                 u = rng.random()
-                c[r, a] = rng.choice([0.0, 0.125, 0.875, S - 1.0, S - 0.125]) if u < 0.3 else dy(rng, 0, S - 0.125)
-    set_positions(df, c, nz_shift(rng, n, amp=3.0))
+                kb = float(rng.integers(1, S + 1))                     # a voxel boundary inside the volume (or its upper face)
+                if u < 0.08:
+                    c[r, a] = np.nextafter(kb, 0.0)                    # one ulp below: still voxel kb - 1
+                    zs[r, a] = True
+                elif u < 0.2:
+                    c[r, a] = kb - rng.choice([T30, T22])              # 1e-9 .. 2.4e-7 below a boundary: voxel kb - 1
+                elif u < 0.28:
+                    c[r, a] = min(kb, S - 1.0) + rng.choice([0.0, T30])
+                else:
+                    c[r, a] = rng.choice([0.0, 0.125, 0.875, S - 1.0, S - 0.125]) if u < 0.5 else dy(rng, 0, S - 0.125)
+    sh3 = nz_shift(rng, n, amp=3.0)
+    sh3[zs] = 0.0
+    set_positions(df, c, sh3)
+    n_dup = plant_duplicates(rng, df, keep_ids_unique=True)
     arr = O.table(df)
+    tomo = arr[:, O.ITOMO].copy()
     per = [masks[0].astype(float)] * len(listed) if single else [m.astype(float) for m in masks]
     removed, inside, gap = O.mask_expected(arr, np.array(listed), per)
     case = dict(kind="mask", df=df, listed=listed, single=single, masks=masks, storage=storage, tl_kind=tl_kind,
-                inplace=bool(rng.integers(0, 2)), out_file=bool(rng.random() < 0.1), exp_kept=int((~removed).sum()), n=n, gap=gap)
+                inplace=bool(rng.integers(0, 2)), out_file=bool(rng.random() < 0.4), exp_kept=int((~removed).sum()), n=n, gap=gap,
+                big=bool(n > 600))
     case["summary"] = {"filter": "clean_by_tomo_mask", "n": n, "tomograms": k, "listed": listed, "tomo_list_kind": tl_kind,
                        "single_mask": single, "mask_shapes": [list(s) for s in shapes], "storage": storage,
                        "mask_zero_fraction": [round(float((m == 0).mean()), 3) for m in masks], "inplace": case["inplace"],
                        "expected_removed": int(removed.sum()), "inside_volume": int(inside.sum()),
-                       "outside_volume_listed": int((np.isin(tomo, listed) & ~inside).sum()), "positions_head": head(arr)}
+                       "outside_volume_listed": int((np.isin(tomo, listed) & ~inside).sum()), "positions_head": head(arr),
+                       "tomo_id_kind": df.attrs["ids"], "subtomo_id_lift": df.attrs["subtomo_lift"], "same_position_pairs_planted": n_dup,
+                       "one_ulp_below_a_voxel_boundary": int(zs.sum()), "output_file": case["out_file"]}
     return case
 
 
@@ -934,11 +1167,27 @@ def run_mask(ctx, case):
     of = os.path.join(ctx.scratch, "mask_out_%d.em" % case["i"]) if case["out_file"] else None
     R = removed_by(case["masks"], case["storage"], case["inplace"], "m", of)
     on_disk = any("_" in st for st in case["storage"])
-    if R is None or (case["i"] % 3 == 2 and not on_disk):
+    if R is None or case["big"]:
+        return
+    if (case["i"] // len(CLASSES)) % 3 == 1:
+        # history: caller-owned mask arrays; call, invert them in place, call again, invert back, call again
+        own = [m.astype(np.float32) for m in case["masks"]]
+        for step in range(3):
+            if step:
+                for m_ in own:
+                    m_[...] = 1 - m_
+            ok, mo = ctx.call("Motl(df)", cm.Motl, case["df"].copy())
+            if not ok:
+                return
+            ok, _ = ctx.call("clean_by_tomo_mask", mo.clean_by_tomo_mask, tl, own[0] if case["single"] else own,
+                             inplace=bool(step % 2), output_file=(of[:-3] + "_h%d.em" % step) if of else None)
+            if not ok:
+                return
+    if case["i"] % 3 == 2 and not on_disk:
         return
     # the complement is written to the SAME paths (call, rewrite the file, call again)
     arrs = ["f8"] * len(case["masks"])
-    Rc = removed_by([1 - m for m in case["masks"]], case["storage"], not case["inplace"], "c")
+    Rc = removed_by([1 - m for m in case["masks"]], case["storage"], not case["inplace"], "c", (of[:-3] + "_c.em") if of else None)
     R0 = removed_by([np.zeros_like(m) for m in case["masks"]], arrs, False, "z")
     R1 = removed_by([np.ones_like(m) for m in case["masks"]], arrs, True, "o")
     if Rc is None or R0 is None or R1 is None:
